@@ -102,13 +102,18 @@ def write_conf(d, aperture_dependent=False, logd_step=0.02, version=1):
             f.write('version = %d\n' % version)
 
 
-def build_indep_package(d, names, grid, filt_names, wavs):
-    """per-file package, not aperture dependent: convolved/<f>.fits written with the
-    library's own writer.  grid[m][j] = quarter-dex log10 flux (mJy)."""
+def build_indep_package(d, names, grid, filt_names, wavs, version=1):
+    """package that is not aperture dependent: convolved/<f>.fits written with the
+    library's own writer.  grid[m][j] = quarter-dex log10 flux (mJy).  version=2: a cube-format
+    package (models.conf version 2 + flux.fits holding the same model names; the fitter reads the
+    convolved files by filter name)."""
     from astropy import units as u
     from sedfitter.convolved_fluxes import ConvolvedFluxes
     os.makedirs(os.path.join(d, 'convolved'))
-    write_conf(d)
+    write_conf(d, version=version)
+    if version == 2:
+        from . import pkgworld as pw
+        pw.cube_object(list(names), [0.5, 60.0], None, lambda m, a, w: 1.0 + m + w, lambda m, a, w: 0.1, 'desc').write(os.path.join(d, 'flux.fits'))
     for j, fn in enumerate(filt_names):
         c = ConvolvedFluxes()
         c.central_wavelength = wavs[j] * u.micron
